@@ -5,11 +5,11 @@ CONFIG = {
     "lean": ["VProps.C04"],
     "sources": ["VProps/C04.lean", "VProps/C05.lean", "VModel/EventParse.lean", "VModel/EventSpec.lean", "VModel/Redact.lean",
                 "VModel/Hash.lean", "VProofs/EventParse.lean", "VProofs/RedactLookup.lean", "VProofs/RedactCore.lean",
-                "VProofs/RedactMaps.lean", "VProofs/RedactMain.lean", "VProofs/RedactExact.lean", "VProofs/RedactCongr.lean",
+                "VProofs/RedactMaps.lean", "VProofs/RedactMain.lean", "VProofs/RedactExact.lean",
                 "VProofs/EventTamper.lean"],
     "theorems": [
         "V.C04.table_facts", "V.C04.accessors_only_see_json", "V.C04.hash_match_intact", "V.C04.hash_mismatch_redacted",
-        "V.C04.tamper_redactable_same_identity_partial",
+        "V.C04.redaction_no_event_id", "V.C04.dropEventID_noop", "V.C04.accepted_no_event_id",
         "V.C04.identity_of_accepted", "V.C04.tamper_redactable_same_identity", "V.C04.same_redaction_same_identity_intact",
     ],
     "rule": "events built with EventBuilder.Build (real ed25519; 14 event types incl. every protected one, state key absent / '' / "
@@ -37,18 +37,20 @@ CONFIG = {
         "the redaction is C05's (its domain restrictions apply: kept content IntSafe etc.)",
         "case variants of keys stripped on receipt (\"Unsigned\", \"Age_ts\", ...) survive the stripping and are visible through "
         "Unsigned() / in JSON(); they are covered by the content hash (only the sender can add them) and disappear on redaction; "
-        "the specification stream treats events with a case variant of a struct field as outside the quantifier",
-        "tamper_redactable_same_identity (full strength for the property's quantifier): the two stripped events' redactions agree up to "
-        "the event_id member the keep struct re-emits for a case variant such as Event_id (hsame: equal after deleteFirst event_id), so the "
-        "Event_id path of commit c0dfbd8 (reset of the decoded ID, key dropped from the redacted JSON, re-parse) is now proved, not only "
-        "sampled. Side condition hc1/hc2, explicit and shown satisfiable: an event returned NOT redacted (hash matched) has no event_id in "
-        "its redaction, i.e. carries no case variant of event_id - true of every Build output and of every hash-preserving copy. It cannot "
-        "be dropped: a sender-made event {Event_id:\"$x\", valid hash} and its content-tampered copy have the same redaction but different "
-        "event IDs (the intact event's reference hash covers the re-emitted event_id, the re-parsed redacted copy's does not) - kernel-"
-        "evaluated counter-example in VProps/C04.lean, replayed on the Go code; root: case-insensitive key matching of the redaction keep "
-        "struct (C05's domain restriction). same_redaction_same_identity_intact covers the remaining true case (both intact, same "
-        "redaction); tamper_redactable_same_identity_partial is kept as a corollary",
+        "the specification stream treats events with a case variant of an EVENT-struct field (room_id, sender, type, state_key, content, "
+        "redacts, depth, unsigned, origin_server_ts, prev_events, auth_events, sticky; event_id only in format 1) or of a key stripped on "
+        "receipt as outside the quantifier (the event structs are filled by encoding/json: lenient parsing); variants of names only the "
+        "redaction keep struct lists (hashes, signatures, origin, prev_state, membership) and of event_id in hashed-ID formats are INSIDE",
+        "tamper_redactable_same_identity (full strength, NO side condition since the redactEventJSON repair): two received events of a "
+        "hashed-ID format whose stripped forms have the same redaction get the same event ID and the same signature verdicts, whichever of "
+        "them passed the hash check and whatever case variants of protected keys (Event_id, ...) they carry. The former side condition hc1/hc2 "
+        "('an event that passed the hash check carries no case variant of event_id') is gone: redaction matches keys exactly, the exact key "
+        "event_id is stripped on receipt, so no redaction of a received event has an event_id member (redaction_no_event_id, "
+        "accepted_no_event_id; identity_of_accepted: redaction and ID of an accepted event are those of the stripped input). The pair that was "
+        "the kernel-evaluated counter-example before the repair (sender-made {Event_id:\"$x\", valid hash} and its content-tampered copy) is "
+        "now an `example` with EQUAL IDs and is in corpus/C04/event.ops; same_redaction_same_identity_intact is kept as the instance 'both intact'; "
+        "tamper_redactable_same_identity_partial (the form with 'no event_id in the redaction' as a hypothesis) is removed - it is subsumed",
         "hash_mismatch_redacted characterises JSON() (= canonical encoding of the redaction) and, via accessors_only_see_json, the "
-        "accessors; that the redaction has only kept keys is C05.redact_exact (well-formed events)",
+        "accessors; that the redaction has only kept keys is C05.redact_exact / redact_drops_unlisted (case variants included)",
     ],
 }
